@@ -149,7 +149,7 @@ func drawC17(rt *rapid.T) C17Scenario {
 	for i := 0; i < nf; i++ {
 		sc.Base = append(sc.Base, drawC17File(rt, paths[i], 0))
 	}
-	nr := rapid.IntRange(1, 5).Draw(rt, "rounds")
+	nr := rapid.IntRange(1, detsim.Scale(5, 8)).Draw(rt, "rounds")
 	faulty := rapid.IntRange(0, 9).Draw(rt, "faulty") >= 4
 	for r := 0; r < nr; r++ {
 		var rd c17Round
